@@ -70,11 +70,34 @@ fn tick() -> Option<u32> {
 
 pub struct InjectedFault;
 
+pub const ALLPOS: u32 = 99;
+
+fn unwind() -> ! {
+    std::panic::resume_unwind(Box::new(InjectedFault))
+}
+
+/// fault position j < ALLPOS: unwind after j strong pointers were reported
 fn maybe_unwind(limit: Option<u32>, traced: u32) {
     if let Some(j) = limit {
-        if traced >= j {
-            std::panic::resume_unwind(Box::new(InjectedFault));
+        if j != ALLPOS && traced >= j {
+            unwind();
         }
+    }
+}
+
+/// all strong pointers were reported: any position short of ALLPOS unwinds now
+fn strong_done(limit: Option<u32>) {
+    if let Some(j) = limit {
+        if j != ALLPOS {
+            unwind();
+        }
+    }
+}
+
+/// everything was reported
+fn all_done(limit: Option<u32>) {
+    if limit.is_some() {
+        unwind();
     }
 }
 
@@ -309,13 +332,11 @@ unsafe impl<'gc> Collect<'gc> for Node<'gc> {
             n += 1;
             maybe_unwind(lim, n);
         }
+        strong_done(lim);
         for w in self.weak.iter() {
             cc.trace(&w);
-            n += 1;
-            maybe_unwind(lim, n);
         }
-        // a fault position beyond the last child still unwinds (after the last child)
-        maybe_unwind(lim, u32::MAX);
+        all_done(lim);
     }
 }
 
@@ -345,11 +366,11 @@ unsafe impl<'gc> Collect<'gc> for LockVal<'gc> {
         if let Some(p) = &self.child {
             cc.trace(p);
         }
-        maybe_unwind(lim, 1);
+        strong_done(lim);
         if let Some(w) = &self.wchild {
             cc.trace(w);
         }
-        maybe_unwind(lim, u32::MAX);
+        all_done(lim);
     }
 }
 
@@ -363,7 +384,7 @@ unsafe impl<'gc> Collect<'gc> for OnceVal<'gc> {
         let lim = tick();
         maybe_unwind(lim, 0);
         cc.trace(&self.child);
-        maybe_unwind(lim, u32::MAX);
+        all_done(lim);
     }
 }
 
@@ -383,12 +404,11 @@ unsafe impl<'gc> Collect<'gc> for FieldBody<'gc> {
             n += 1;
             maybe_unwind(lim, n);
         }
+        strong_done(lim);
         for w in self.weak.iter() {
             cc.trace(&w);
-            n += 1;
-            maybe_unwind(lim, n);
         }
-        maybe_unwind(lim, u32::MAX);
+        all_done(lim);
     }
 }
 
@@ -420,16 +440,15 @@ unsafe impl<'gc> Collect<'gc> for Root<'gc> {
             n += 1;
             maybe_unwind(lim, n);
         }
-        for w in &self.weak {
-            cc.trace(w);
-            n += 1;
-            maybe_unwind(lim, n);
-        }
         for d in &self.sets {
             cc.trace(d);
             n += 1;
             maybe_unwind(lim, n);
         }
-        maybe_unwind(lim, u32::MAX);
+        strong_done(lim);
+        for w in &self.weak {
+            cc.trace(w);
+        }
+        all_done(lim);
     }
 }
